@@ -1,6 +1,7 @@
 package core
 
 import (
+	"go/token"
 	"go/types"
 
 	"golang.org/x/tools/go/ssa"
@@ -173,7 +174,47 @@ func ReturnsNilError(in ssa.Instruction) bool {
 	if !isErrorType(last.Type()) {
 		return true
 	}
-	return !ProvablyNonNil(last)
+	return !ProvablyNonNil(last) && !nonNilAt(last, in.Block())
+}
+
+// nonNilAt: the block is only reachable through the non-nil edge of a test
+// `v != nil` / `v == nil` on the same value (the usual `if err != nil { return err }`).
+func nonNilAt(v ssa.Value, b *ssa.BasicBlock) bool {
+	fn := b.Parent()
+	for _, blk := range fn.Blocks {
+		ifi, ok := blk.Instrs[len(blk.Instrs)-1].(*ssa.If)
+		if !ok {
+			continue
+		}
+		c, neg := StripNot(ifi.Cond)
+		bo, ok := c.(*ssa.BinOp)
+		if !ok || (bo.Op != token.NEQ && bo.Op != token.EQL) {
+			continue
+		}
+		var other ssa.Value
+		if bo.X == v {
+			other = bo.Y
+		} else if bo.Y == v {
+			other = bo.X
+		} else {
+			continue
+		}
+		if k, ok := other.(*ssa.Const); !ok || !k.IsNil() {
+			continue
+		}
+		nonNilIdx := 0
+		if (bo.Op == token.EQL) != neg {
+			nonNilIdx = 1
+		}
+		e := Edge{blk, nonNilIdx}
+		// b reachable only via e?
+		q := PathQuery{Fn: fn, CutEdge: func(x Edge) bool { return x == e }}
+		first := b.Instrs[0]
+		if _, reach := q.CanReach(nil, func(in ssa.Instruction) bool { return in == first }); !reach {
+			return true
+		}
+	}
+	return false
 }
 
 func isErrorType(t types.Type) bool {
